@@ -454,10 +454,19 @@ func RunC15(ep *core.Episode) {
 		api  int
 		want string
 	}
-	// 6..8: as 0..2 (3..5 too), and the statement-level yields the driver inserts into the binder's decoder construction are honoured
+	// 3..8: as 0..2, and the statement-level yields the driver inserts into the binder's decoder construction are honoured
 	ntk := tp.Choose("ntasks", 9)
 	ntasks := 2 + ntk%3
-	astOn := ntk >= 6 && os.Getenv("VSIM_AST_OFF") == ""
+	astOn := ntk >= 3 && os.Getenv("VSIM_AST_OFF") == ""
+	// an episode honours a window of 150 (one in three: 600) consecutive inserted yields
+	astFrom, astTo, astSeen := 0, 0, 0
+	if astOn {
+		astFrom = tp.Choose("astfrom", 800)
+		astTo = astFrom + 150
+		if ntk >= 6 {
+			astTo = astFrom + 600
+		}
+	}
 	plans := make([][]*job, ntasks)
 	for k := 0; k < ntasks; k++ {
 		nj := 2 + tp.Choose("njobs", 5)
@@ -516,7 +525,15 @@ func RunC15(ep *core.Episode) {
 	concurrentFirst := false
 	verifhook.OnYield = func(site string, obj interface{}) {
 		if strings.HasPrefix(site, "ast") {
-			if astOn && (S.Known() || site == "ast-lock") {
+			if !astOn {
+				return
+			}
+			if site == "ast-lock" {
+				S.Yield(site)
+				return
+			}
+			astSeen++ // (counting is cheap, asking the scheduler who is calling is not)
+			if astSeen > astFrom && astSeen <= astTo && S.Known() {
 				ep.ProbeN("inserted-yield-taken", 1)
 				S.Yield(site)
 			}
